@@ -8,6 +8,11 @@ BASE = json.load(open('/root/.vp/BASELINE.json'))['cmd'] if os.path.exists('/roo
 # id -> (engine, category, technique, level text, level note, design ref)
 E3NOTE = "Sequentially consistent interleavings at synchronisation granularity (locks, channels, select, WaitGroup, go statements, injected file-system effect points); atomics and un-instrumented dependencies (zapx, bbolt, roaring) execute atomically between scheduling points; timers never fire; exploration is exhaustive up to the stated deviation bound, not beyond. The source rewrite is regenerated from /repo's current tree on every run."
 CHECKS = {
+ "C18": ("E2-space", "model_checking",
+         "exhaustive enumeration of a shape family × point lattice (with points at ± encoding resolutions around every shape edge) against exact spherical geometry, three-valued at the encoding resolution",
+         "On scorch, scorch with the s2 spatial plugin and upsidedown: every bounding box over a coarse lattice (date-line-crossing, pole-touching, zero-size), circles around all 77 lattice points with radii 1 m … 10 000 km, lattice rectangles and triangles in both windings; documents = the lattice points, grids of points at ±1…±1000 ×1e-7° around every edge coordinate, points on 8–16 bearings just inside and outside every circle, and multi-point documents; distance sort from every origin; Morton round trip of every point used. Oracle: exact spherical geometry, three-valued — clearly inside ⇒ must be returned, clearly outside ⇒ must not, inside the band (1.2e-6° for boxes/polygons, ±0.3 m plus the WGS84 radius interval for distances) ⇒ either.",
+         "Polygons are asserted only where planar and great-circle readings of every edge agree; quick thins the plugin-less engines (large / polar shapes cost ~10^5 dictionary probes each).",
+         "DESIGN.md §5 C18"),
  "C06": ("E2-space", "model_checking",
          "exhaustive enumeration of match streams × sort specifications × page settings through the real collector over a stub searcher, and of corpora × requests on real indexes, against a stable reference sort",
          "(a) Collector level: the real TopNCollector over a stub searcher / doc-value reader is fed EVERY match stream up to a length bound over alphabets of scores and keys (present, missing, multi-valued), all binary score streams of length 12–13 (crossing the slice→heap store switch), ids assigned by every permutation, × 56 sort specifications × Size {0,1,2,3,5,11} × From {0,1,2,10} × PreAllocSizeSkipCap {1000,3}, plus SearchAfter from every hit under total orders. (b) Index level on both engines: every sequence of ≤3–4 documents over 6 profiles plus tied corpora, 65 sort specifications, every From/Size page and SearchAfter/SearchBefore from every hit with keys taken from DecodedSort. Oracle: stable sort of the matches in natural index order by the documented comparison; hits = positions [From, From+Size), Total, MaxScore; pages tile.",
